@@ -7,14 +7,18 @@ def run(tier, seed):
     v = Verdict(PROP, tier, seed)
     v.assumptions = ["model: inline suspend count capacity 3 / transfer unit 2 (code: 63 / 32, exercised by real nesting depths up to 120)",
                      "TLC bounds: 2 clients x 2 workers"]
-    run_models(v, PROP, ["Q6", "Q6b", "Q6c", "Q6d"])
-    run_mutants(v, PROP, [("Q6b", "drain_ignores_suspend")])
+    run_models(v, PROP, ["Q6", "Q6b", "Q6c", "Q6d"] + (["Q6e"] if tier == "thorough" else []), timeout=3000)
+    # Q6e: a concurrent queue suspended while its drainer holds a pending-barrier reservation (finding F3, fixed by
+    # 45c3b37); the mutant re-creates the pinned code's double reservation and must strand the queue
+    run_mutants(v, PROP, [("Q6b", "drain_ignores_suspend"), ("Q6e", "double_pending_barrier_reservation")])
     dqstate_conformance(v, PROP)
     n = 2 if tier == "quick" else 10
     runs = []
     for k in range(n):
         runs += [dict(W=1, pp=1, susp=1, inact=1, execs=10, ops=30, perturb=2 + k % 2), dict(W=2, pp=1, susp=1, execs=8, ops=30, perturb=2),
-                 dict(W=0, pp=0, susp=1, inact=1, execs=6, ops=30, perturb=3, nt=4)]
+                 dict(W=0, pp=0, susp=1, inact=1, execs=6, ops=30, perturb=3, nt=4),
+                 # nesting storm: depths around 32 / 63 / 64 / 96 with the slow paths held at their dq_state accesses
+                 dict(W=1, pp=1, susp=2, execs=5, ops=30, perturb=2), dict(W=2, pp=0, susp=2, execs=4, ops=30, perturb=2 + k % 2)]
     drive(v, PROP, seed, runs, tier)
     return v.finish()
 
